@@ -666,8 +666,8 @@ class Fixture:
         vt.reset()
         self.vlan = E.Network(broadcast_address=E.LocalBroadcast())
         mk = lambda name, inst: E.LocalDeviceObject(
-            objectName=name, objectIdentifier=("device", inst), maxApduLengthAccepted=1476,
-            segmentationSupported="segmentedBoth", maxSegmentsAccepted=64, vendorIdentifier=999)
+            objectName=name, objectIdentifier=("device", inst), maxApduLengthAccepted=MAX_APDU,
+            segmentationSupported="segmentedBoth", maxSegmentsAccepted=MAX_SEGMENTS, vendorIdentifier=999)
         self.client = E.App(mk("client", 1), self.vlan)
         self.devobj = mk("dut", 2)
         self.dev = (E.AppCov if spec.get("cov") else E.App)(self.devobj, self.vlan)
@@ -1612,12 +1612,98 @@ def oracle_present_value(ctx, E, fx, case, op, rep):
                  op=op, reply=rep, commands=sorted(slots.items()))
 
 
+# the limits both stacks are configured with (Fixture: maxApduLengthAccepted, maxSegmentsAccepted)
+MAX_APDU, MAX_SEGMENTS = 1476, 64
+
+
+def answer_fits(data_len):
+    """ServerSSM's rule for a ComplexAck of `data_len` octets of service data: it goes out
+    unsegmented when it fits one APDU (3 octets of header), else in segments of MAX_APDU - 5
+    octets, and the transaction is aborted (apdu-too-long) when that takes more segments than
+    the client accepts"""
+    if data_len + 3 <= MAX_APDU:
+        return True
+    seg = MAX_APDU - 5
+    return (data_len + seg - 1) // seg <= MAX_SEGMENTS
+
+
+def _nat_len(n):
+    return max(1, (n.bit_length() + 7) // 8)
+
+
+def rpm_ack_len(E, results):
+    """exact length of the service data of the ReadPropertyMultipleACK that carries `results`
+    ([{"oid", "els": [{"pid", "idx", "val": hex | "err": [class, code]}]}]) — counted with the
+    standard's tag sizes, not with the library"""
+    total = 0
+    for res in results:
+        total += 5 + 2                                   # [0] object identifier, [1] open / close
+        for e in res["els"]:
+            total += 1 + _nat_len(e["pid"])              # [2] property identifier
+            if e.get("idx") is not None:
+                total += 1 + _nat_len(e["idx"])          # [3] array index
+            total += 2                                   # [4] / [5] open / close
+            if "val" in e:
+                total += len(e["val"]) // 2
+            else:
+                c = E.errcls.get(e["err"][0], 0)
+                k = E.errcode.get(e["err"][1], 0)
+                total += 1 + _nat_len(c) + 1 + _nat_len(k)
+    return total
+
+
+def expected_rpm_results(E, fx, op):
+    """what the request should be answered with, assembled from single ReadProperty requests
+    (selectors expanded over the device's own tables); None if some single read is neither an ack
+    nor an Error"""
+    sels = (E.pidnum["all"], E.pidnum["required"], E.pidnum["optional"])
+    out = []
+    for s in op["specs"]:
+        obj = fx.find(s["oid"]) if s["oid"] != [8, 4194303] else fx.devobj
+        els = []
+        for r in s["refs"]:
+            todo = []
+            if r["pid"] in sels and obj is not None:
+                for name, p in obj._properties.items():
+                    if name == "propertyList" or (r["pid"] == E.pidnum["required"] and p.optional) \
+                            or (r["pid"] == E.pidnum["optional"] and not p.optional):
+                        continue
+                    todo.append((E.pidnum[name], True))
+            else:
+                todo.append((r["pid"], False))
+            for pid, from_sel in todo:
+                if pid in sels and obj is None:
+                    single = {"r": "error", "cls": "object", "code": "unknownObject"}
+                else:
+                    single = rp(E, fx, s["oid"], pid, r["idx"])
+                if single.get("r") == "ack":
+                    els.append({"pid": pid, "idx": r["idx"], "val": single["hex"]})
+                elif single.get("r") == "error":
+                    if from_sel and single.get("code") == "unknownProperty":
+                        continue
+                    els.append({"pid": pid, "idx": r["idx"], "err": [single["cls"], single["code"]]})
+                else:
+                    return None
+        out.append({"oid": s["oid"], "els": els})
+    return out
+
+
 def oracle_rpm(ctx, E, fx, case, op, rep):
     """rpm_equals_rp: every element is what ReadProperty answers for the same reference"""
     def bad(kind, what, **kw):
         ctx.fail(kind, case, what, op=op, **kw)
     vol = {E.pidnum[n] for n in VOLATILE}
     kind = rep.get("r")
+    if kind == "abort" and rep.get("reason") == 11:
+        # apdu-too-long: legitimate when — and only when — the answer does not fit what the client
+        # accepts (MAX_SEGMENTS segments of MAX_APDU octets)
+        want = expected_rpm_results(E, fx, op)
+        n = None if want is None else rpm_ack_len(E, want)
+        if n is not None and not answer_fits(n):
+            ctx.count("rpm-too-long", ("abort", 11))
+            return
+        return bad("no-answer", "ReadPropertyMultiple aborted with apdu-too-long although the answer (%s octets) "
+                   "fits %d segments of %d octets" % (n, MAX_SEGMENTS, MAX_APDU))
     if kind in ("none", "abort") or kind.startswith("python:"):
         return bad("no-answer", "ReadPropertyMultiple got %r" % (rep,))
     if kind != "ack":
@@ -1807,6 +1893,10 @@ def mask_model(q, b):
     if q["op"] == "rp" and q["pid"] in vol and b.get("r") == "ack":
         return dict(b, hex="volatile")
     if q["op"] == "rpm" and b.get("r") == "ack":
+        # the transport below the handler: an answer that does not fit the client's limits is
+        # aborted by the server's segmentation machine (apdu-too-long) — exactly then
+        if not answer_fits(rpm_ack_len(E, b["res"])):
+            return {"r": "abort", "reason": 11}
         for res in b["res"]:
             for e in res["els"]:
                 if e["pid"] in vol and "val" in e:
